@@ -95,6 +95,62 @@ func nonNilCut(fn *ssa.Function, v ssa.Value) core.EdgeSet {
 	return cut
 }
 
+// errCompanionCut: a helper that hands back a node together with an error, expanded into fn,
+// leaves two merges in one block: the node and the error. When on every incoming edge either
+// the error is a fresh one (errors.New / fmt.Errorf: never nil) or it is nil and the node that
+// arrives over that edge cannot be nil there, then "the error is nil" says "the node is not":
+// the edges on which the error is known to be nil count as nil tests of the node.
+func (nf *nilFacts) errCompanionCut(fn *ssa.Function, ph *ssa.Phi) core.EdgeSet {
+	blk := ph.Block()
+	for _, in := range blk.Instrs {
+		e, ok := in.(*ssa.Phi)
+		if !ok || e == ph || len(e.Edges) != len(ph.Edges) || e.Type().String() != "error" {
+			continue
+		}
+		okAll, someErr := true, false
+		for i, ev := range e.Edges {
+			if core.IsNilConst(ev) {
+				alt := ph.Edges[i]
+				if core.IsNilConst(alt) {
+					okAll = false
+					break
+				}
+				if nf.valueMayBeNil(fn, alt, nil, map[ssa.Value]bool{}) {
+					// fine if the end of that predecessor is only reached past a nil test of alt
+					if core.ReachableBlocks(fn, nonNilCut(fn, alt))[blk.Preds[i]] {
+						okAll = false
+						break
+					}
+				}
+				continue
+			}
+			call, isCall := ev.(*ssa.Call)
+			if isCall {
+				if mi, isMI := ev.(*ssa.MakeInterface); isMI {
+					call, isCall = mi.X.(*ssa.Call)
+				}
+			}
+			if mi, isMI := ev.(*ssa.MakeInterface); isMI {
+				call, isCall = mi.X.(*ssa.Call)
+			}
+			if !isCall || !core.IsCallTo(call, "errors.New", "fmt.Errorf") {
+				okAll = false
+				break
+			}
+			someErr = true
+		}
+		if !okAll || !someErr {
+			continue
+		}
+		out := core.EdgeSet{}
+		for ed := range nonNilCut(fn, e) {
+			out[core.Edge{From: ed.From, K: 1 - ed.K}] = true
+		}
+		return out
+	}
+	return nil
+}
+
 // derefSites returns the instructions in fn that dereference v (field access, or passing v to a
 // callee that dereferences the corresponding parameter unchecked).
 func (nf *nilFacts) derefSites(fn *ssa.Function, v ssa.Value) []ssa.Instruction {
@@ -359,6 +415,9 @@ func C01(p *core.Program, r *core.Report) {
 					continue
 				}
 				cut := nonNilCut(fn, v)
+				if ph, isPhi := v.(*ssa.Phi); isPhi {
+					cut = core.Union(cut, nf.errCompanionCut(fn, ph))
+				}
 				// DOM invariant as a rule: the elements that dom.GetElementsByTagName(R, ..) lists are
 				// proper descendants of R, each of which has a parent (detaching a listed element
 				// clears only its own links); dom.QuerySelectorAll(R, ..) may list R itself, so there
@@ -923,7 +982,7 @@ func C01(p *core.Program, r *core.Report) {
 			r.Add("T5", "Apply: a result always carries a fresh div as content node", p.Pos(ret.Pos()), ok && c.Of(res) == "new(distiller.Result)" && core.IsNilConst(errv), "", w...)
 		}
 		// the root handed on is an element
-		paths, _, _ := core.EnumerateDecisions(p, ap, core.DecisionOpts{Outcome: func(in ssa.Instruction, cc *core.Canon) (string, bool) {
+		paths, _, _ := core.EnumerateDecisions(p, ap, core.DecisionOpts{ResolvePhis: true, Outcome: func(in ssa.Instruction, cc *core.Canon) (string, bool) {
 			if core.IsCallTo(in, extractorPkg+".NewContentExtractor") {
 				return "extract " + cc.Of(in.(*ssa.Call).Call.Args[0]), true
 			}
@@ -938,7 +997,13 @@ func C01(p *core.Program, r *core.Report) {
 				continue
 			}
 			isEl, found := 0, 0
+			infeasible := false
 			for _, l := range pa.Lits {
+				// (a fresh error is not nil: the path on which a helper reported a failure and
+				// the caller found no error does not exist)
+				if l.Val && strings.HasSuffix(l.Atom, ") == nil") && (strings.HasPrefix(l.Atom, "errors.New(") || strings.HasPrefix(l.Atom, "fmt.Errorf(")) {
+					infeasible = true
+				}
 				if l.Atom == "$0.Type == html.ElementNode" {
 					isEl = tern(l.Val)
 				}
@@ -948,7 +1013,7 @@ func C01(p *core.Program, r *core.Report) {
 					found = tern(!l.Val)
 				}
 			}
-			if !(isEl == 1 || found == 1) {
+			if !(isEl == 1 || found == 1) && !infeasible {
 				bad++
 			}
 		}
